@@ -414,6 +414,8 @@ def run(ctx):
                 'non-trivial = distinct case with output rows or an error')
     # the identity of records and keys (JSON text) and the order of strings (UTF-16 code units) as JavaScript has them: JsKey.v, Utf16.v
     importlib.import_module('props.jskey').run(ctx, JSKEY_THEOREM)
+    # joins over ragged tables (a B / A record lacking a key field) - coverage gaps, notes/covgap.md
+    importlib.import_module('props.cov_jsjoin').run_engine(ctx, THEOREM, 300 if ctx.tier == 'quick' else 30000)
 
 
 def replay(ctx, case):
